@@ -425,7 +425,10 @@ fn do_action(ctx: &mut Ctx, occ: &str, a: &Action)
         }
         Action::Spe(e) =>
         {
-            let ent = ctx.c.spawn(PopMarker).id();
+            // spawn_empty + try_insert: the marker insertion must not turn into Bevy's B0003 panic when the reserved
+            // entity is despawned by an earlier command of the same queue (the model's spe is a bare spawn_empty)
+            let ent = ctx.c.spawn_empty().id();
+            ctx.c.entity(ent).try_insert(PopMarker);
             bind(*e, ent);
             mark(&mut ctx.c, occ);
         }
